@@ -1043,6 +1043,12 @@ def binop_object(I, op, sym, a, b):
 def unary_object(I, name, v):
     from .interp import ClassVal
 
+    h = getattr(I.registry, "unary_fallback", None)
+    if h is not None:
+        r = h(I, name, v)
+        if r is not NotImplemented:
+            return r
+
     if isinstance(v, PObj) and isinstance(v.cls, ClassVal):
         m = I.find_method(v.cls, name)
         if m is not None:
